@@ -4,6 +4,7 @@ import (
 	"encoding/binary"
 	"encoding/hex"
 	"fmt"
+	"io"
 	"strings"
 
 	seccomp "github.com/elastic/go-seccomp-bpf"
@@ -37,6 +38,10 @@ type Policy struct {
 	// WarmArch, when set, makes Compile assemble the same library value for that architecture
 	// first (result discarded): the verdict and the program must not depend on such a history.
 	WarmArch string
+	// WarmEdit makes Compile first assemble a *variant* of the policy (one group with its last name
+	// dropped and another action), discard the result, then edit that same library value in place
+	// (inside the group: names and action) to this policy and assemble again.
+	WarmEdit bool
 }
 
 func Hex(s string) string {
@@ -165,6 +170,20 @@ func (p *Policy) Compile() (reply string, insts []bpf.Instruction) {
 		}
 	}()
 	gp := p.ToGo()
+	if p.WarmEdit && len(p.Groups) > 0 {
+		gi := len(p.Groups) / 2
+		realNames, realAction := gp.Syscalls[gi].Names, gp.Syscalls[gi].Action
+		if len(realNames) > 1 {
+			gp.Syscalls[gi].Names = realNames[:len(realNames)-1]
+		}
+		gp.Syscalls[gi].Action = realAction ^ 0x00030000
+		func() {
+			defer func() { _ = recover() }()
+			CompileGo(&gp, p.Arch, p.Endian)
+			gp.Dump(io.Discard)
+		}()
+		gp.Syscalls[gi].Names, gp.Syscalls[gi].Action = realNames, realAction
+	}
 	if p.WarmArch != "" {
 		// history: the same library value has been assembled for another architecture before
 		func() {
